@@ -469,8 +469,9 @@ def rule_digest(repo, rule):
         rule.violation(qs.loc(), qs.fq, "no raise under a digest comparison", "calls of one function with different equation "
                        "sets are not reported", "digest/raise")
     gq = repo.fn(QS, "getqap")
+    from ..flatten import resolve_locals
     rets = [n for n in ast.walk(gq.node) if isinstance(n, ast.Return)]
-    t = norm(rets[0].value) if rets else ""
+    t = norm(resolve_locals(gq.node, rets[0].value)) if rets else ""
     if "blocks[" in t and "eqs[" in t:
         rule.ok(gq.loc(), gq.fq, t[:100], "digest input covers the block declarations and the equations of the context")
     else:
@@ -555,7 +556,7 @@ def check(repo, rep, tier):
             if i.key:
                 i.key = i.key.replace("R-C13-2", "R-C12-4")
             r4.instances.append(i)
-    r5 = rep.rule("R-C12-5", "sub-circuit glue pairing", floor=10)
+    r5 = rep.rule("R-C12-5", "sub-circuit glue pairing", floor=8)
     rule_glue(repo, r5)
     r8 = rep.rule("R-C12-8", "wire / block names taken from a counter consume it (names are unique per context)", floor=5)
     rule_unique_names(repo, r8)
